@@ -55,7 +55,7 @@ class Builtins:
     def map_iter(self, m: VVal, what: str, st: State) -> VIter:
         th = self.th
         t = m.term
-        if z3.is_app(t) and t.decl().kind() != z3.Z3_OP_UNINTERPRETED:
+        if z3.is_app(t) and (t.decl().kind() != z3.Z3_OP_UNINTERPRETED or t.num_args() > 0 and any(not z3.is_const(a) or a.sort() != th.Val for a in t.children())):
             # interpreted head (ite, ...) cannot occur in a trigger: name the value
             key0 = 'alias:' + str(t.get_id())
             al = self.alias_cache.get(key0)
@@ -1009,6 +1009,9 @@ class Builtins:
             return [(VBool(z3.And(th.isc('int')(v), z3.Not(th.isc('bool')(v)), th.mk_int(th.int_of(v)) == v)), st)]
         if name == 'int_key':
             return [(VInt(th.int_of(V(0))), st)]
+        if name == 'attr_named':
+            n = args[1]
+            return [(VVal(th.fld(n.py[1])(V(0))), st)]
         if name == 'attr':
             n = args[1]
             if isinstance(n, VVal) and n.py is not None:
